@@ -305,11 +305,14 @@ impl<K, V, S> DoubleEndedIterator for IntoIter<K, V, S> {
 
 impl<K, V, S> Drop for IntoIter<K, V, S> {
     fn drop(&mut self) {
+        // Make the table forget its items first, without dropping them (the
+        // memory they live in stays as it is). Should the destructor of a key
+        // or value panic below, the cache dropped after this iterator must not
+        // drop the entries again that were already yielded or dropped.
+        self.cache.table.clear_no_drop();
+
         // Drop all allocated memory of the remaining elements.
         for _ in self.by_ref() { }
-
-        // Clear items from the cache without dropping their memory.
-        self.cache.table.clear_no_drop();
     }
 }
 
